@@ -220,7 +220,39 @@ public:
     void read_to(basic_generic_visitor<char_type>& visitor,
         std::error_code& ec) 
     {
-        if (is_begin_container(current().event_type()))
+        if (is_begin_container(current().event_type()) && (parser_.is_typed_array() || parser_.is_multi_dim()))
+        {
+            // The events of a typed array or of a multi-dimensional array are produced by an iterator over
+            // its storage and do not change the parser's level, replay them one by one up to the matching end
+            int depth = 0;
+            for (;;)
+            {
+                const auto type = current().event_type();
+                cursor_visitor_.dump(visitor, *this, ec);
+                if (JSONCONS_UNLIKELY(ec))
+                {
+                    return;
+                }
+                if (is_begin_container(type))
+                {
+                    ++depth;
+                }
+                else if (is_end_container(type))
+                {
+                    --depth;
+                }
+                if (depth == 0)
+                {
+                    break;
+                }
+                read_next(ec);
+                if (JSONCONS_UNLIKELY(ec))
+                {
+                    return;
+                }
+            }
+        }
+        else if (is_begin_container(current().event_type()))
         {
             parser_.cursor_mode(false);
             parser_.mark_level(parser_.level());
